@@ -34,7 +34,7 @@ THEOREMS = [P + t for t in (
     "radix_parameter", "exponent_marker_spec", "print_digits_17",
     "wrap_free", "bignat_muladd_wrap_free", "bignat_div_wrap_free", "bignat_extract_wrap_free", "convert_wrap_free",
     "convert_int32_in_range_partial",
-    "print17_roundtrip", "convert_reads_back", "extract_ldexp_reads_back", "tiny_shortcircuit_slack", "read_zero_exact",
+    "print17_roundtrip", "printed_text_accepted", "print17_roundtrip_text", "convert_reads_back", "extract_ldexp_reads_back", "tiny_shortcircuit_slack", "read_zero_exact",
 )]
 
 LITERAL_KINDS = ("structured", "structured-hexp", "from-double", "long-edge", "odd-valid", "corpus")
@@ -416,7 +416,7 @@ def run(ctx):
         "libm: ldexp is exact round-to-nearest-even scaling (modelled, compared bit-for-bit on every run); the log2 values are taken from the libm in "
         "use at run time (Gen/Strtod.lean log2Table) and CERTIFIED to one ulp by the kernel (log2_table_within_1ulp) - no longer an assumption",
         "LibcPrinted17 (hypothesis of print17_roundtrip): snprintf %.17g prints a decimal within half a unit in its 17th significant digit of the "
-        "double, and that text is accepted by the scanner (shape [-]d[.ddd][e+-dd]); both compared / exercised on every p17 case",
+        "double (compared on every p17 case); that every text of the %.17g shape is accepted by the scanner is proved (printed_text_accepted)",
         "libc_fixed0_exact: snprintf %.0f of an integer-valued double prints its exact decimal expansion (compared on every run)",
         "unsigned wrap-freedom of the BigNat routines is PROVED (wrap_free: the C-typed model, widths regenerated from the declarations and casts, equals "
         "the unbounded model on every input); signed int: exponent, n*31+16 and base^4 proved in range, shamt*31 and 2*newn (bignat_extra) tested only",
